@@ -11,7 +11,7 @@ import (
 
 func TestMain(m *testing.M) {
 	kit.Main(m, "C15", "exploration",
-		"cache.New through its public builder with an injected Clock. (1) EXHAUSTIVE: every sequence up to length L (quick 5, thorough 6; asynchronous mode 4 / 5) over {Set k (fresh value), Get k, Delete k} x 3 keys, clock advance (0.6 x expiry), Close, for all four policies x capacities 1..3 x expiry on/off; "+
+		"cache.New through its public builder with an injected Clock. (1) EXHAUSTIVE: every sequence up to length L (quick 5, thorough 6 and 7 for capacities 1-2; asynchronous mode 4 / 5) over {Set k (fresh value), Get k, Delete k} x 3 keys, clock advance (0.6 x expiry), Close, for all four policies x capacities 1..3 x expiry on/off; "+
 			"(2) rapid: long sequences (up to 300 / 2000 operations, key universe = capacity + 3, incl. GetOrPanic) over capacities 1..6, 99, 100, 101, 199, 200, all policies, with/without expiry, synchronous and asynchronous eviction; (3) thorough: the same property under go test -fuzz via rapid.MakeFuzz. "+
 			"Oracle: a reference model that owns presence through the callbacks (present = set - deleted - notified): Len = |present| <= capacity after every operation; Get hits with the last value iff present; a miss of a present key is legal only by expiry and must be notified in that call; "+
 			"no callback for an absent key, no second callback for one residence, callback value = value held; Close notifies every remaining entry exactly once and the cache is inert afterwards; LRU victim = least recently used (exact), LFU victim has minimal use count (ties free), "+
@@ -60,6 +60,8 @@ func TestExhaustive(t *testing.T) {
 		L := lenSync
 		if !cfg.sync {
 			L = lenAsync
+		} else if kit.Thorough() && cfg.capacity <= 2 {
+			L = lenSync + 1 // thorough: length 7 for the tightest capacities
 		}
 		alpha := alphabet(cfg)
 		// work units = (config, first symbol), distributed over the shards
